@@ -144,7 +144,7 @@ def run(tier):
             v.distinct((fl, T, seed))
             v.sample({"build": fl, "threads": T, "iterations_per_thread": iters, "operations": int(t[3]), "mismatches": 0, "tsan_reports": 0})
     v.cov["rule"] = ("N in {2,4,8,16} threads released by a barrier with staggered starts, each running create -> random option setters (individual or asm_set_all / asm_sib) -> assemble (plain / chunk fitting / counting; through the string entry points, the FILE entry points on a thread-private file or the deprecated aliases; debug output on in one call of eight; 200 programs over lines of every "
-                     "first letter of the lookup tables, some failing, some of 650-7000 lines) -> in half of the iterations asm_create_bin_file to a thread-private path, read back and compared with the code -> compare with the single-threaded reference -> destroy on private buffers; plus thousands of COLD starts (a fresh process per trial whose first library calls are made concurrently by 2-16 threads released by a spin barrier with 0-5000 ns skew, uninstrumented -O0 build), with random sched_yield/nanosleep between API calls; the reference is "
+                     "first letter of the lookup tables, some failing, some of 650-7000 lines) (in a quarter of the iterations in two calls split at a line boundary; in half of them while a SECOND live instance of the same thread with other options holds and keeps another program) -> in half of the iterations asm_create_bin_file to a thread-private path, read back and compared with the code -> compare with the single-threaded reference -> destroy on private buffers; plus thousands of COLD starts (a fresh process per trial whose first library calls are made concurrently by 2-16 threads released by a spin barrier with 0-5000 ns skew, uninstrumented -O0 build), with random sched_yield/nanosleep between API calls; the reference is "
                      "computed in a forked child so the first-ever asm_create_instance calls (the only moment the global tables change value) overlap in the threads; %d runs under ThreadSanitizer + runs under ASan; "
                      "reports de-duplicated by library frames; distinct = clean (build, threads, seed) runs" % nrep)
     v.cov["exhaustive"] = False
